@@ -151,7 +151,7 @@ def _record_calls(repo: Repo, module: Module, stmt: ast.AST):
     """Calls inside stmt constructing a dataclass of this package with >= 2 keyword arguments (the decoded record)."""
     out = []
     for n in ast.walk(stmt):
-        if isinstance(n, ast.Call) and dotted(n.func) and len(n.keywords) >= 2:
+        if isinstance(n, ast.Call) and dotted(n.func) and (len(n.keywords) >= 2 or any(isinstance(a, ast.Starred) for a in n.args)):
             ci = repo.resolve_class(module, n.func)
             if ci is not None and ci.is_dataclass and ci.name not in ("MessageDecodeResult", "HeaderDecodeResult", "HeaderEncodeResult"):
                 out.append((n, ci))
@@ -223,12 +223,22 @@ def decoder_fields(repo: Repo, module: Module, clsname: str, method: str = "deco
                 except B.Unsupported as ex:
                     problems.append(f"{k.arg}: {ex}")
             names = [n for n, _, _ in rci.fields]
-            for i, a in enumerate(call.args):
-                if i < len(names):
-                    try:
-                        fields[names[i]] = ev.ev(a, env, module)
-                    except B.Unsupported as ex:
-                        problems.append(f"{names[i]}: {ex}")
+            pos = []
+            for a in call.args:
+                try:
+                    if isinstance(a, ast.Starred):
+                        sv = ev.ev(a.value, env, module)
+                        if not isinstance(sv, B.Tup):
+                            raise B.Unsupported("* of a non-tuple value")
+                        pos.extend(sv.items)
+                    else:
+                        pos.append(ev.ev(a, env, module))
+                except B.Unsupported as ex:
+                    problems.append(f"positional argument {len(pos)}: {ex}")
+                    pos.append(None)
+            for i, a in enumerate(pos):
+                if i < len(names) and a is not None:
+                    fields[names[i]] = a
             record = (rci, fields)
             break
         _exec_best_effort(ev, s, env, module, problems)
